@@ -289,9 +289,13 @@ fn reuse_after_error(rep: &mut Report, v1: &Value, v2: &Value, p: &P, rng: &mut 
     for max in [1usize, 5, usize::MAX] {
         rep.eval();
         let mut pr = Printer::with_options(FailOnceWriter::new(usize::MAX / 2, max), p.to_lexpr());
-        let rs = [pr.print(v1).is_ok(), pr.print(v2).is_ok(), pr.print(v1).is_ok()];
+        // the printer is itself an io::Write that passes bytes through (separators between values)
+        let r1 = pr.print(v1).is_ok();
+        let sep_ok = std::io::Write::write_all(&mut pr, b"\n;; next\n").is_ok() && std::io::Write::flush(&mut pr).is_ok();
+        let rs = [r1 && sep_ok, pr.print(v2).is_ok(), pr.print(v1).is_ok()];
         let w = pr.into_inner();
         let mut expected = full1.clone();
+        expected.extend_from_slice(b"\n;; next\n");
         expected.extend_from_slice(&full2);
         expected.extend_from_slice(&full1);
         rep.count("reuse:printer-used-for-several-values");
@@ -387,6 +391,20 @@ fn serde_entry(rep: &mut Report, rng: &mut Rng) {
         if r.is_ok() || !full.starts_with(&w.out) {
             rep.violation("serde", "C07:error-swallowed:serde_lexpr::to_writer".into(), format!("sink failing at byte {}: serde_lexpr::to_writer returned {:?} after delivering {:?}", k, r.map_err(|e| e.to_string()), show(&w.out)), json!({}));
             return;
+        }
+        // the sink's error comes back as an Io-category error carrying it
+        if let Err(e) = r {
+            use std::error::Error as _;
+            rep.eval();
+            let cat = e.classify();
+            let carried = e.source().map_or(false, |s| s.to_string().contains(crate::mon::io::MARKER)) || e.to_string().contains(crate::mon::io::MARKER);
+            let dbg = format!("{:?}", e);
+            let ioe = std::io::Error::from(e);
+            if cat != serde_lexpr::error::Category::Io || !carried || ioe.kind() != std::io::ErrorKind::BrokenPipe || !ioe.to_string().contains(crate::mon::io::MARKER) || dbg.is_empty() {
+                rep.violation("serde", "C07:sink-error-not-surfaced-as-io:serde_lexpr::to_writer".into(), format!("sink failing at byte {}: error category {:?}, carries the sink's error: {}, converts to {:?}", k, cat, carried, ioe), json!({}));
+                return;
+            }
+            rep.count("serde:sink-error-surfaced-as-io");
         }
     }
     rep.distinct(hash_bytes(&full));
